@@ -355,3 +355,50 @@ Definition import_tstack (old : list (list (list Z))) (s : bytes) : option (list
     end
   | None => None
   end.
+
+(* ---- TMCG_StackSecret<TMCG_CardSecret>:  sts^n^idx^crs|k|w|...|^idx^crs|...|^... ---------------- *)
+Definition tsec := list (list (Z * Z)).
+Fixpoint read_tpairs (size : N) (n : nat) (s : bytes) : option (list (N * tsec) * bytes) :=
+  match n with
+  | O => Some ([], s)
+  | S m =>
+    match field s hat with
+    | Some (f, r) =>
+      match strtoul_full f with
+      | Some idx =>
+        if idx <? size then
+          match field r hat with
+          | Some (g, r') =>
+            match import_tsecret g with
+            | Some sec => match read_tpairs size m r' with
+                          | Some (ps, r'') => Some ((idx, sec) :: ps, r'')
+                          | None => None
+                          end
+            | None => None
+            end
+          | None => None
+          end
+        else None
+      | None => None
+      end
+    | None => None
+    end
+  end.
+
+Definition export_tstacksecret (ss : list (N * tsec)) : bytes :=
+  magic_sts ++ [hat] ++ encode_dec (N.of_nat (length ss)) ++ [hat]
+  ++ concat (map (fun p => encode_dec (fst p) ++ hat :: export_tsecret (snd p) ++ [hat]) ss).
+
+Definition import_tstacksecret (old : list (N * tsec)) (s : bytes) : option (list (N * tsec)) :=
+  match cm s magic_sts hat with
+  | Some r0 =>
+    match import_size r0 with
+    | Some (n, r1) =>
+      match read_tpairs n (N.to_nat n) r1 with
+      | Some (ps, _) => if perm_check (old ++ ps) n then Some (old ++ ps) else None
+      | None => None
+      end
+    | None => None
+    end
+  | None => None
+  end.
